@@ -369,3 +369,25 @@ def run_fixed_repros(chk):
             chk.fail("oracle", {"finding": fid, "replay_cmd": f"PYTHONPATH=/repo /venv/bin/python findings/repro.py {fid}"},
                      f"the repaired defect {fid} is back: {why}")
     chk.notes["fixed_findings_replayed"] = ran
+
+
+class time_limit:
+    """with time_limit(30): ...  raises TimeoutError in the main thread when the body runs longer (the group-closure loop of
+    merge_models is super-linear: a few generated registries with many mutually similar models take minutes)"""
+
+    def __init__(self, seconds):
+        self.seconds = seconds
+
+    def _fire(self, *_):
+        raise TimeoutError(f"longer than {self.seconds} s")
+
+    def __enter__(self):
+        import signal
+        self._old = signal.signal(signal.SIGALRM, self._fire)
+        signal.setitimer(signal.ITIMER_REAL, self.seconds)
+
+    def __exit__(self, *exc):
+        import signal
+        signal.setitimer(signal.ITIMER_REAL, 0)
+        signal.signal(signal.SIGALRM, self._old)
+        return False
